@@ -63,6 +63,17 @@ func TestVerifC18(t *testing.T) {
 				sc.AppA.TotalBytes = rng.between(200, 1500) * sc.CfgA.mss()
 			}
 			sc.LimitMs = 3600 * 1000 * 10
+			// the path is clean wherever the clock and the sequence numbers are
+			switch rng.intn(4) {
+			case 0:
+				sc.Clock = uint32(0) - uint32(rng.between(0, 20000))
+				sc.SnA, sc.SnB = uint32(0)-uint32(rng.between(0, 300)), uint32(0)-uint32(rng.between(0, 300))
+			case 1:
+				sc.Clock = uint32(1<<31) - uint32(rng.between(0, 20000))
+				sc.SnA, sc.SnB = uint32(1<<31)-uint32(rng.between(0, 300)), uint32(1<<31)-uint32(rng.between(0, 300))
+			case 2:
+				sc.Clock, sc.SnA, sc.SnB = rng.u32(), rng.u32(), rng.u32()
+			}
 			rec.beginCase(sc)
 			rec.guard(sc, func() {
 				before := atomic.LoadUint64(&DefaultSnmp.RetransSegs)
@@ -76,7 +87,7 @@ func TestVerifC18(t *testing.T) {
 					for sn, c := range e.txCount {
 						segs++
 						if c != 1 {
-							rec.violationf(sc, "C18 data segment transmitted more than once on a clean path", "end %s: sn +%d appeared %d times on the wire (one-way delay %d ms, intervals %d/%d, nodelay %d/%d, resend %d, rto now %d)", e.name, sn, c, sc.Net.DelayMin, sc.CfgA.Interval, sc.CfgB.Interval, sc.CfgA.NoDelay, sc.CfgB.NoDelay, e.cfg.Resend, e.k.rx_rto)
+							rec.violationf(sc, "C18 data segment transmitted more than once on a clean path", "end %s: sn %d appeared %d times on the wire (one-way delay %d ms, intervals %d/%d, nodelay %d/%d, resend %d, rto now %d)", e.name, sn, c, sc.Net.DelayMin, sc.CfgA.Interval, sc.CfgB.Interval, sc.CfgA.NoDelay, sc.CfgB.NoDelay, e.cfg.Resend, e.k.rx_rto)
 							break
 						}
 					}
